@@ -27,13 +27,13 @@ theorem maxCIDLen_eq : maxCIDLen = 20 := by decide
 /-- everything `assemble` guarantees about the sizes of an emitted packet -/
 theorem assemble_ok (h : Hdr) (p : List Nat) (plan : Plan) (udpMin cap : Nat) (out : Out)
     (hok : assemble h p plan udpMin cap = .ok out) :
-    out.payloadLen = p.length + exactFill plan h.len p.length ∧
+    out.payloadLen = p.length + innerPad plan h.len h.pnLen p.length ∧
     out.lengthField = h.pnLen + out.payloadLen + tagLen ∧
     out.packetLen = h.len + out.payloadLen + tagLen ∧
     out.packetLen ≤ cap ∧
     (1 ≤ h.pnLen ∧ h.pnLen ≤ 4) ∧
-    out.datagramLen = datagramLenOf plan udpMin out.packetLen ∧
-    out.plain = h.bytes out.lengthField ++ (p ++ List.replicate (exactFill plan h.len p.length) 0) := by
+    out.datagramLen = datagramLenOf plan udpMin cap out.packetLen ∧
+    out.plain = h.bytes out.lengthField ++ (p ++ List.replicate (innerPad plan h.len h.pnLen p.length) 0) := by
   unfold assemble at hok
   simp only [List.length_append, List.length_replicate] at hok
   split at hok
@@ -45,10 +45,19 @@ theorem assemble_ok (h : Hdr) (p : List Nat) (plan : Plan) (udpMin cap : Nat) (o
       subst hok
       exact ⟨rfl, by simp only []; omega, rfl, by simp only []; omega, by omega, rfl, rfl⟩
 
+/-- the minimum-payload padding makes packet number + payload at least 4 bytes -/
+theorem samplePad_spec (pnLen n : Nat) : pnLen + (n + samplePad pnLen n) ≥ 4 ∨ pnLen ≥ 4 := by
+  unfold samplePad; split <;> omega
+
+theorem innerPad_sample (plan : Plan) (hl pnLen n : Nat) (hp : pnLen ≤ 4) : pnLen + (n + innerPad plan hl pnLen n) ≥ 4 := by
+  unfold innerPad
+  have := samplePad_spec pnLen (n + exactFill plan hl n)
+  omega
+
 /-- `assemble` fails exactly with the diagnosable errors -/
 theorem assemble_err (h : Hdr) (p : List Nat) (plan : Plan) (udpMin cap : Nat) (e : Err)
     (herr : assemble h p plan udpMin cap = .error e) :
-    (e = .nofit ∧ h.len + (p.length + exactFill plan h.len p.length) + tagLen > cap) ∨
+    (e = .nofit ∧ h.len + (p.length + innerPad plan h.len h.pnLen p.length) + tagLen > cap) ∨
     (e = .badPnLen ∧ (h.pnLen < 1 ∨ h.pnLen > 4)) := by
   unfold assemble at herr
   simp only [List.length_append, List.length_replicate] at herr
